@@ -32,8 +32,13 @@ Definition jsx_free_name (n : node) : bool :=
 Fixpoint ready (n : node) {struct n} : bool :=
   let rl := fix rl (l : list node) : bool :=
               match l with [] => true | x :: r => ready x && rl r end in
+  let ral := fix ral (l : list node) : bool :=
+               match l with
+               | [] => true
+               | x :: r => (match x with JAttr _ _ | Spread _ => ready x | _ => false end) && ral r
+               end in
   match n with
-  | JsxE nm attrs _ _ children _ => jsx_free_name nm && rl attrs && rl children
+  | JsxE nm attrs _ _ children _ => jsx_free_name nm && ral attrs && rl children
   | JsxF children => rl children
   | JAttr _ v =>
       match v with
@@ -50,6 +55,10 @@ Fixpoint ready (n : node) {struct n} : bool :=
   | JText _ _ => true
   | _ => false
   end.
+
+(* an attribute-list item: an attribute or a spread, ready *)
+Definition ready_attr (x : node) : bool :=
+  match x with JAttr _ _ | Spread _ => ready x | _ => false end.
 
 (* ---- the grammar of a parsed module, as far as JSX is concerned ------------------------- *)
 (* where a node sits: in an ordinary (expression / statement / field) position, in the attribute
